@@ -579,6 +579,25 @@ def run(ctx):
             case["fact_form"] = "pair"
         case["readonly"] = it % 3 == 1
         check(ctx, case, reqs, pend)
+    # several fact columns with DIFFERENT missing patterns in cells of two and three rows (fewer than two complete rows, yet
+    # column pairs without a missing value): on every run, both policies, weighted and not
+    for rep in range(4):
+        case = A.gen_case(ctx.rng, multi_axis=False, k=1, N=5)
+        case["dense"] = [np.array([0, 0, 1, 1, 1], dtype=np.int64)]
+        case["commons"] = [int(case["commons"][0]) if case["commons"][0] in (0, 1) else 0]
+        case["N"], case["K"] = 5, 3
+        case["fact_vals"] = np.array([[1.0, 2.0, 0.5], [3.0, 1.0, 4.0], [2.0, 2.5, 1.0], [0.5, 4.0, 3.0], [4.0, 1.0, 2.0]])
+        fk = np.ones((5, 3), dtype=bool)
+        fk[0, 2] = False          # cell 0: two rows, one incomplete -> one complete row; columns 0 and 1 are whole
+        fk[2, 0] = False
+        fk[3, 1] = False          # cell 1: three rows, one complete
+        case["fact_valid"] = fk
+        case["fact_form"] = "pair" if rep % 2 else "nan"
+        case["ignore"] = rep >= 2
+        case["weights"] = None if rep % 2 == 0 else ("array", np.array([1.0, 2.0, 0.5, 1.0, 3.0]), np.ones(5, dtype=bool))
+        case["modes"] = case.get("modes", ["most"])[:1]
+        ctx.hit("columns_with_different_missing_patterns")
+        check(ctx, case, reqs, pend)
     pooled_statistics(ctx)
     minmax_trailing(ctx)
     missing_weights(ctx)
